@@ -13,13 +13,42 @@ import (
 
 var out *bufio.Writer
 
+var posMode bool
+
 func emit(s string) {
+	if posMode {
+		emitPos(s)
+		return
+	}
 	if s == "" {
 		out.WriteString("-\n")
 		return
 	}
 	out.WriteString(hex.EncodeToString([]byte(s)))
 	out.WriteByte('\n')
+}
+
+// (string, colonPos) pairs for the URL helpers that take a position
+func emitPos(s string) {
+	h := "-"
+	if s != "" {
+		h = hex.EncodeToString([]byte(s))
+	}
+	first := -1
+	for i := 0; i < len(s); i++ {
+		if s[i] == ':' {
+			first = i
+			break
+		}
+	}
+	seen := map[int]bool{}
+	for _, k := range []int{first, first + 1, first - 1, 0, 1, len(s) - 1, len(s), len(s) - 3, len(s) - 4} {
+		if k < 0 || seen[k] {
+			continue
+		}
+		seen[k] = true
+		fmt.Fprintf(out, "%s %d\n", h, k)
+	}
 }
 
 func main() {
@@ -41,6 +70,9 @@ func main() {
 		genEmail(rng, thorough)
 	case "url":
 		genURL(rng, thorough)
+	case "urlpos":
+		posMode = true
+		genURL(rng, false)
 	case "alnum":
 		genAlnum(rng, thorough)
 	case "runes":
